@@ -188,7 +188,7 @@ def halo_equiv(case):
             key = f"halo_vs_padcrop_{mode}_{prec}"
             resid[key] = max(resid.get(key, 0), e)
             # not the same arithmetic: the enlarged domain's dx differs from the original by an ulp, amplified by e^G
-            if e > solve.tol(prec, St["G"], base=EX[prec]):
+            if e > solve.tol(prec, St["G"], base=EX[prec], cr=St["cr"]):
                 viol.append({"what": "halo_not_equivalent_to_pad_and_crop", "mode": mode, "field": nm, "rel": e, "precision": prec,
                              "meas_pt": mp, "levels": levels, "setup": desc, "analytic": analytic})
     b = {f"halo:{St['halo_class']}": 1, f"prec:{prec}": 1, f"modes:{St['mode_class']}": 1,
